@@ -72,7 +72,17 @@ def _h_cert(eng, case):
     from ndn.security.validator import known_key_validator as kv
     env.set_clock(lambda: eng.int('clock', 0, 2 ** 64 - 1))
     kind = case['signer']
-    signer = env.make_signer(eng, kind, rmin=max(32, case.get('rmin', 0)))   # < 32 bytes never verifies in the ideal model
+    signer = env.make_signer(eng, kind, rmin=max(32, case.get('rmin', 0)),    # < 32 bytes never verifies in the ideal model
+                             key_name='/placeholder/KEY/0' if case.get('relocate') else None)
+    if case.get('relocate') and kind not in ('digest', 'null'):
+        # the key locator is (re)configured after the signer was constructed - e.g. set to the CA's own certificate name
+        # once that exists: what counts is the configuration at the moment of issuing
+        if case['relocate'] == 'assign':
+            signer.key_locator_name = env.KEY_NAME
+        else:
+            signer.key_locator_name = Name.from_str(env.KEY_NAME)
+        if case.get('reuse'):
+            pass
     if case.get('other_signer'):
         # another signer object of the same class, for another key and key locator, is created afterwards (a CA and a
         # subject live in one process): the issuing signer keeps its own configuration
@@ -281,6 +291,10 @@ def cases(tier, seed):
         for mode in ('new', 'derive_text') if quick else ('new', 'derive_text', 'derive_comp', 'self', 'sign_req'):
             cs.append(('cert', dict(base, pubkey='elastic', max=70000 if quick else 2 ** 20, signer=kind, mode=mode,
                                     rmin=rmin), {'weight': 30}))
+    for kind in ('ecdsa', 'rsa', 'ed25519', 'hmac'):
+        for how in ('assign', 'assign-list'):
+            cs.append(('cert', dict(base, signer=kind, mode='new', relocate=how, rmin=70), {'weight': 5}))
+            cs.append(('cert', dict(base, signer=kind, mode='derive_text', relocate=how, reuse=True, rmin=70), {'weight': 5}))
     # the same with the process in another time zone (east and west of Greenwich, across the date line of the instants)
     for tz in ('JST-9', 'PST8', 'NPT-5:45'):
         for mode in ('new', 'derive_text', 'derive_comp', 'self', 'sign_req'):
